@@ -156,6 +156,10 @@ static void handle(const Fields & q, Fields & a) {
 			if (!mmd_engine_root(e)) mmd_engine_parse_string(e);
 			DString * o = d_string_new(""); mmd_engine_export_token_tree(o, e, (short)L(q[2])); a.push_back(std::string(o->str, o->currentStringLength)); d_string_free(o, true); return;
 		}
+		if (op == "eopml2text") { // id : the engine keeps its OPML source, the imported text is returned
+			DString * r = mmd_engine_convert_opml_to_text(e);
+			if (r) { a.push_back(std::string(r->str, r->currentStringLength)); d_string_free(r, true); } else { a[0] = "null"; a.push_back(""); }
+			DString * d = mmd_engine_d_string(e); a.push_back(std::string(d->str, d->currentStringLength)); return; }
 		if (op == "esub") { // id start len : parse a sub-range of the source (what an editor does for a changed region); no output
 			DString * d = mmd_engine_d_string(e); size_t n = d->currentStringLength; size_t st_ = n ? (size_t)L(q[2]) % (n + 1) : 0; size_t ln = (n - st_) ? (size_t)L(q[3]) % (n - st_ + 1) : 0;
 			mmd_engine_parse_substring(e, st_, ln); a.push_back(S((long)st_)); return; }
